@@ -92,9 +92,63 @@ fn digest(outs: &[Vec<u8>]) -> String {
     hex::encode(&h.finalize()[..16])
 }
 
+/// shape of a REAL stored session manager, read from its CBOR with ciborium: top-level keys in
+/// order, the two counters, the `State` variant (with the field names of a prepared response)
+fn shape(v: &ciborium::Value, dev: bool) -> String {
+    use ciborium::Value;
+    let keys = |v: &Value| v.as_map().map(|m| m.iter().map(|(k, _)| k.as_text().unwrap_or("?").to_string()).collect::<Vec<_>>().join(",")).unwrap_or("?".into());
+    let get = |k: &str| v.as_map().and_then(|m| m.iter().find(|(kk, _)| kk.as_text() == Some(k)).map(|(_, x)| x.clone()));
+    let ctr = |k: &str| get(k).and_then(|x| x.as_integer()).map(|i| i128::from(i).to_string()).unwrap_or("?".into());
+    if !dev { return format!("{} ctr={},{}", keys(v), ctr("reader_message_counter"), ctr("device_message_counter")); }
+    let st = match get("state") {
+        Some(Value::Text(t)) => t,
+        Some(Value::Map(m)) if m.len() == 1 => { let (k, x) = &m[0]; let k = k.as_text().unwrap_or("?");
+            if k == "Signing" { format!("Signing:{}", keys(x)) } else { k.to_string() } }
+        _ => "?".into() };
+    format!("{} ctr={},{} state={}", keys(v), ctr("device_message_counter"), ctr("reader_message_counter"), st)
+}
+
+/// the stored forms against the codec model: base64 layer, CBOR layer and the serde shape
+fn codec_lines(ctx: &mut Ctx, p: &Pair, with_device_b64: bool) {
+    let sd = p.dev.stringify().unwrap(); let sr = p.rdr.stringify().unwrap();
+    let (bd, br) = (base64::decode(&sd).unwrap(), base64::decode(&sr).unwrap());
+    let vd: ciborium::Value = cbor::from_slice(&bd).unwrap(); let vr: ciborium::Value = cbor::from_slice(&br).unwrap();
+    // the model's base64 + CBOR decoders read the real stored state: same fields, counters, variant
+    ctx.emit.corr("codec:peek:dev", format!("codec.peek dev {sd}"), shape(&vd, true));
+    ctx.emit.corr("codec:peek:rdr", format!("codec.peek rdr {sr}"), shape(&vr, false));
+    // the model's OWN stored form of the corresponding abstract state has the same shape
+    let pk = sess::peek_device(&p.dev);
+    let abs = match &pk.state { Some(device::State::AwaitingRequest) => "awaiting", Some(device::State::Signing(_)) => "signing/1/-/0", Some(device::State::ReadyToRespond(_)) => "ready/nodata", None => "?" };
+    ctx.emit.corr("codec:shape:dev", format!("codec.shape dev {} {} {abs}", pk.dev_ctr, pk.rdr_ctr), shape(&vd, true));
+    let pr = sess::peek_reader(&p.rdr);
+    ctx.emit.corr("codec:shape:rdr", format!("codec.shape rdr {} {}", pr.rdr_ctr, pr.dev_ctr), shape(&vr, false));
+    // base64 layer both ways on the real bytes (the reader state is small; the device state once per history)
+    ctx.emit.corr("codec:b64:enc", format!("b64.enc {}", hex::encode(&br)), sr.clone());
+    ctx.emit.corr("codec:b64:dec", format!("b64.dec {sr}"), hex::encode(&br));
+    if with_device_b64 { ctx.emit.corr("codec:b64:enc", format!("b64.enc {}", hex::encode(&bd)), sd.clone()); ctx.emit.corr("codec:b64:dec", format!("b64.dec {sd}"), hex::encode(&bd)); }
+}
+
 fn final_state(p: &Pair) -> Vec<Vec<u8>> { vec![p.dev.stringify().unwrap().into_bytes(), p.rdr.stringify().unwrap().into_bytes()] }
 
 pub fn run(ctx: &mut Ctx) {
+    // base64 layer on its own: every length 0..=40 (all three padding cases many times over), random
+    // content, and strings the decoder must refuse (both implementations are asked the same question)
+    for n in 0..=40usize { for _ in 0..(if ctx.thorough { 40 } else { 4 }) {
+        let bs: Vec<u8> = (0..n).map(|_| ctx.rng.gen()).collect();
+        let e = base64::encode(&bs);
+        ctx.emit.corr("b64:enc", format!("b64.enc {}", if bs.is_empty() { "-".into() } else { hex::encode(&bs) }), if e.is_empty() { "-".into() } else { e.clone() });
+        ctx.emit.corr("b64:dec", format!("b64.dec {}", if e.is_empty() { "-".into() } else { e.clone() }), if bs.is_empty() { "-".into() } else { hex::encode(&bs) });
+        if n > 0 {
+            // one symbol replaced by a character outside the alphabet; padding in the middle; trailing bits set
+            let mut bad: Vec<String> = vec![];
+            let mut c = e.clone().into_bytes(); let j = ctx.rng.gen_range(0..c.len()); c[j] = b"-_.~ \n*"[ctx.rng.gen_range(0..7)]; bad.push(String::from_utf8(c).unwrap());
+            if e.len() > 4 { let mut c = e.clone().into_bytes(); c[1] = b'='; bad.push(String::from_utf8(c).unwrap()); }
+            if e.ends_with('=') { let mut c = e.clone().into_bytes(); let k = c.iter().position(|x| *x == b'=').unwrap() - 1; c[k] = b'/'; bad.push(String::from_utf8(c).unwrap()); }
+            for b in bad { if b.contains(' ') || b.contains('\n') { continue; }
+                let real = match base64::decode(&b) { Ok(v) => if v.is_empty() { "-".into() } else { hex::encode(v) }, Err(_) => "none".to_string() };
+                ctx.emit.corr("b64:dec-bad", format!("b64.dec {b}"), real); }
+        }
+    } }
     let pki = Pki::new(&mut ctx.rng);
     let n_hist = if ctx.thorough { 600 } else { 40 };
     for hno in 0..n_hist {
@@ -173,6 +227,7 @@ pub fn run(ctx: &mut Ctx) {
                     serde_json::json!({"script": format!("{:?}", script), "boundary": i, "restored": who,
                                        "first_differing_output_index": first_diff, "msg_hex": format!("{hno}-{i}-{which}-{da}")}));
             }
+            codec_lines(ctx, &base, i == 0);
             if i < len { exec(&mut base, &script[i]); }
         }
     }
